@@ -395,8 +395,24 @@ def run_tables_case(ctx, spec, suite, use_model=True):
     return inp
 
 
+def ambiguous_names_dag(rng):
+    """node names whose concatenations coincide: (x, y+sep+w) and (x+sep+y, w) for a separator the library might use when it
+    derives helper names from an edge; a few more edges around them"""
+    sep = rng.choice(["_", "_", ".", "-", ":"])
+    x, y, w = rng.sample(["a", "b", "c", "d", "7", "q"], 3)
+    nodes = [x, y + sep + w, x + sep + y, w] + rng.sample(["e", "f", "g"], rng.randint(0, 2))
+    order = list(nodes); rng.shuffle(order)
+    pos = {v: i for i, v in enumerate(order)}
+    edges = {tuple(sorted((x, y + sep + w), key=pos.get)), tuple(sorted((x + sep + y, w), key=pos.get))}
+    for i in range(len(order)):
+        for j in range(i + 1, len(order)):
+            if rng.random() < 0.3:
+                edges.add((order[i], order[j]))
+    return order, list(edges)
+
+
 def rand_dag_spec(rng, max_nodes=7, weights=None):
-    nodes, edges = gen.dag(rng, max_nodes=max_nodes)
+    nodes, edges = ambiguous_names_dag(rng) if rng.random() < 0.08 else gen.dag(rng, max_nodes=max_nodes)
     if rng.random() < 0.15:
         nodes = nodes + [f"iso{i}" for i in range(rng.randint(1, 2))]
     # edges() order of networkx: by tail in node order
@@ -503,11 +519,21 @@ def run_greedy_case(ctx, spec, suite, use_model=True):
     if any(H[u][v].get("flow") != d.get("flow") for u, v, d in G.edges(data=True)):
         viol(ctx, "decompose_using_max_bottleneck modified the flow stored in the graph", inp, site="decompose_using_max_bottleneck")
     if use_model:
-        if not cap:
-            raise Infra("decompose_using_max_bottleneck did not call graphutils.max_bottleneck_path")
+        if not cap and (spec["edges"] or impl.get("paths")):
+            # (the model takes the topological order from the captured call: without the call the tie no longer applies)
+            ctx.disagree(suite, inp, "decompose_using_max_bottleneck did not call graphutils.max_bottleneck_path", None,
+                         note="the code no longer has the structure the model mirrors")
+            use_model = False
+        elif cap:
+            tn, te, tt, ok = cap[0]
+            if not all(c == cap[0] for c in cap) or not ok or tn != nodes or te != edges:
+                ctx.disagree(suite, inp, "temp_G of decompose_using_max_bottleneck is not the user's graph in edges() order", None,
+                             note="the code no longer has the structure the model mirrors")
+                use_model = False
+        else:
+            use_model = False
+    if use_model:
         tn, te, tt, ok = cap[0]
-        if not all(c == cap[0] for c in cap) or not ok or tn != nodes or te != edges:
-            raise Infra("temp_G of decompose_using_max_bottleneck is not the user's graph in edges() order")
         ans = ctx.driver.call({"op": "greedy", "nodes": nodes, "edges": [list(e) for e in edges], "topo": tt,
                                "flow": [[u, v, qstr(x)] for (u, v), x in f.items()]})
         ctx.rep.cov["traces_validated_against_impl"] += 1
@@ -627,7 +653,11 @@ def run_antichain_case(ctx, spec, suite, use_model=True):
         okc = okc and mcost == sum(fx[e] for e in edges if e[0] == SRC) and not any(e[1] == SRC or e[0] == SNK for e in edges)
         ctx.rep.cov["contract_checks"] = ctx.rep.cov.get("contract_checks", 0) + 1
         if not okc:
-            raise Infra(f"min_cost_flow returned an infeasible flow / wrong cost on {json.dumps(inp)[:300]}")
+            # graphutils.min_cost_flow is the library's own wrapper around network simplex: a flow that misses a demand, breaks
+            # conservation or has another cost than reported is the library's failure (the hypotheses of antichain_max are gone)
+            viol(ctx, "graphutils.min_cost_flow returned a flow that violates the demands / conservation or reports another cost "
+                      f"than its source outflow (cost {mcost})", inp, site="graphutils.min_cost_flow")
+            return inp
         fl = [[ren(u), ren(v), qstr(x)] for u in mflow for v, x in mflow[u].items()]
         ans = ctx.driver.call({"op": "antichain", "nodes": nodes, "edges": [list(e) for e in edges], "source": SRC, "sink": SNK,
                                "demand": [[u, v, qstr(x)] for (u, v), x in demand.items()], "flow": fl,
